@@ -16,7 +16,13 @@ tags
   task-kind           a task created with another kind than `change` was issued as `change`        (finding F12)
   task-dropped        a task was released into a full request queue: it left the plan, its request is lost (finding N3)
   plan-after          the plans in the `snap` after the operation are not the previous ones minus the executed tasks
-                      plus the appended ones in order (task executed but still there, task vanished, order changed …)
+                      plus the appended ones in order (task executed but still there, task vanished, order changed …).
+                      Without a logger (log=0) there are no executor records: the oracle then follows the plan pass in its
+                      fixed order (`plan_order`: the regions below a region before the region itself), lets every region
+                      whose head got no plan callback either not walk or release exactly the runnable tasks for the marks
+                      of that moment, applies what the (visible) plan callbacks did at their place in that order — marks
+                      set, clear() wiping the marks of their region, appends into a pool a walk below has just made room
+                      in — and demands that one of these outcomes, followed by the later edits, is the snapshot
   verdict-twice / verdict-both / verdict-nonempty / verdict-callback / verdict-without-log / verdict-mark
                       `log P <head> S|F` (plan status) records: at most one per region and step, never together with
                       executed tasks, SUCCESS only with no task left, followed by exactly the matching
@@ -33,6 +39,14 @@ tags
 `planExists` is not in the transcript: the oracle uses a `PX=<hex mask over region ids>` field of the `snap` line
 when present, otherwise its own record of successful appends since the plan data was last wiped (exact unless a
 callback edited the plan from an `exit` handler, whose control points to a region the transcript does not name).
+For `progress` what counts is planExists when the plan pass ran, i.e. the PX of the snapshot BEFORE the step: a plan
+attached later in the same operation (enter / reenter / guard callbacks of the transition) does not make the region
+plan-owning for that pass.
+
+Where the oracle loses track of the marks (`load` wipes the plan data and re-enters states; clear() from an `exit`
+handler) it starts again from the `TS=` / `TF=` masks of the last snapshot instead of guessing which of several tasks
+with the same destination an executor record stands for (the guess — the leftmost — remains for transcripts without
+these fields).
 """
 from __future__ import annotations
 import oracles as O
@@ -104,6 +118,20 @@ def in_order(plan, dests):
             return None
         out.append(j)
         j += 1
+    return out
+
+
+def plan_order(tree, active):
+    """Heads of the active regions in the order the plan pass (`deepUpdatePlans`) reaches their plans: the regions
+    below first (composite: the active sub-state; orthogonal: every sub-state, in order), then the region itself."""
+    out = []
+
+    def go(i):
+        for c in tree[i].subs:
+            if (active >> c) & 1 and tree[c].subs:
+                go(c)
+        out.append(i)
+    go(0)
     return out
 
 
@@ -183,6 +211,17 @@ def judge(hdr, ops, tree, config, rejections, stats):
         plans = parse_pl(prev.get('PL') if plans_known else '', nregions)
         active = int(prev['A'], 16) if prev and 'A' in prev else 0
         nreq = len(O.parse_list(prev.get('Q', '[]'))) if prev else 0       # requests offered to the queue so far
+        px_prev = int(prev['PX'], 16) if prev and 'PX' in prev else None   # planExists before the operation
+        # marks the oracle lost track of (`load`; clear() from an `exit` handler, whose region the transcript does not
+        # name): the implementation reports them in the snapshot (TS= / TF=, masks over state ids) — start again from those
+        if not st.marks_exact and name != 'load' and prev is not None and 'TS' in prev and 'TF' in prev:
+            ts, tf = int(prev['TS'], 16), int(prev['TF'], 16)
+            st.succ = {i for i in range(nstates) if (ts >> i) & 1}
+            st.fail = {i for i in range(nstates) if (tf >> i) & 1}
+            st.succ_seen = st.succ_seen or bool(st.succ)
+            st.fail_seen = st.fail_seen or bool(st.fail)
+            st.marks_exact = True
+            stats.inc('c06_marks_resynced')
         carried = bool(st.succ or st.fail or not st.marks_exact)
 
         # ---- operations on the plan data through the instance
@@ -210,13 +249,19 @@ def judge(hdr, ops, tree, config, rejections, stats):
         tick_actions = []                                 # (sid, method, actions) of acting update/react callbacks
         ambiguous = False
         plan_phase_closed = not step
-        at_close = None                                   # log=0: (plans, marks) when the plan pass ran
+        at_close = None                                   # log=0: (plans, marks, exact) when the plan pass began
+        plan_cbs = []                                     # log=0: (head, actions) of the plan callbacks, in order
         later = []                                        # log=0: plan edits after it: (region, task | None = clear)
+        marks_at_pass = None                              # log=0: the marks when the plan pass began
+        attached_at_pass = None                           # (attached, exact) when the plan pass ended
 
         def close_plan_phase():
-            nonlocal plan_phase_closed, at_close
+            nonlocal plan_phase_closed, at_close, attached_at_pass, marks_at_pass
             if not plan_phase_closed:
-                at_close = ([list(p) for p in plans], set(st.succ), st.marks_exact)
+                if marks_at_pass is None:
+                    marks_at_pass = set(st.succ)
+                at_close = ([list(p) for p in plans], marks_at_pass, st.marks_exact)
+                attached_at_pass = (list(st.attached), st.attached_exact)
                 st.clear_statuses()
                 plan_phase_closed = True
 
@@ -331,6 +376,13 @@ def judge(hdr, ops, tree, config, rejections, stats):
                 elif method not in TICK:
                     close_plan_phase()
                 rid = region_of_cb(sid, method)
+                # without a logger the walks of the plan pass are invisible: what a plan callback does comes after the
+                # walks of the regions below its region and before those of the regions around it — kept aside, in order
+                unseen = not logging and step and not plan_phase_closed and method in ('planSucceeded', 'planFailed')
+                if unseen:
+                    if marks_at_pass is None:
+                        marks_at_pass = set(st.succ)
+                    plan_cbs.append((sid, acts))
                 for a in acts:
                     if a[0] == 'S' and 0 < a[1] < nstates:
                         st.succ.add(a[1]); st.succ_seen = True
@@ -340,6 +392,11 @@ def judge(hdr, ops, tree, config, rejections, stats):
                         if rid is None:
                             ambiguous = True
                             st.attached_exact = False
+                        elif unseen:
+                            if sum(len(p) for p in plans) + sum(1 for _, aa in plan_cbs for x in aa if x[0] == 'PA') <= taskcap:
+                                st.attached[rid] = True         # room even if no walk has released a task
+                            else:
+                                st.attached_exact = False       # pool occupancy unknown without executor records
                         else:
                             if plan_phase_closed:
                                 later.append((rid, (a[1], a[3], a[2], a[4])))
@@ -354,7 +411,8 @@ def judge(hdr, ops, tree, config, rejections, stats):
                             st.marks_exact = False
                         else:
                             h = head_of_rid[rid]
-                            plans[rid] = []
+                            if not unseen:
+                                plans[rid] = []
                             st.succ -= set(range(h.id, h.id + h.size))
                             st.fail -= set(range(h.id, h.id + h.size))
                             if plan_phase_closed:
@@ -390,41 +448,61 @@ def judge(hdr, ops, tree, config, rejections, stats):
             stats.inc('checks_C06')
             after = parse_pl(op.snap['PL'], nregions)
             if not logging and step and at_close is not None:
-                # no logger, hence no executor records: per region either no walk happened, or exactly the runnable
-                # tasks (for the marks of the moment, or for those another region's walk left) are gone
-                base, marks, exact = at_close
+                # no logger, hence no executor records.  The plan pass visits the active regions in a fixed order (the
+                # regions below a region first); a region whose head got a plan callback (visible) did not walk, any other
+                # one either did not walk or released exactly the runnable tasks for the marks of that moment — marks that
+                # earlier walks consumed and plan callbacks set or, through clear(), wiped.  Every combination is followed.
+                base, marks0, exact = at_close
                 if exact:
                     stats.inc('c06_nolog_plan_checks')
-                    used = set()
-                    for r in range(nregions):
-                        used |= {base[r][i][0] for i in runnable(base[r], active, marks)}
-                    cands = []
-                    for r in range(nregions):
-                        c = [base[r]]
-                        for mk in (marks, marks - used):
-                            gone = set(runnable(base[r], active, mk))
-                            v = [t for i, t in enumerate(base[r]) if i not in gone]
-                            if v not in c:
-                                c.append(v)
-                        # a walk whose marks were partly consumed by another region: any order-preserving removal of
-                        # runnable tasks in between is not enumerated; two variants per region keep the product small
-                        cands.append(c)
-                    combos = [[]]
-                    for c in cands:
-                        combos = [x + [v] for x in combos for v in c][:256]
-                    finals = []
-                    for combo in combos:
-                        p = [list(v) for v in combo]
-                        for (r, t) in later:
-                            if t is None:
-                                p[r] = []
-                            elif sum(len(q) for q in p) < taskcap:
-                                p[r].append(t)
-                        finals.append(p)
-                    if after not in finals:
-                        rej('plan-after', 'after `%s` (no logger): plans are %s; from %s with active=%x, succeeded=%s and the later '
-                            'edits %s they can only become one of %s' % (name, [fmt(p) for p in after], [fmt(p) for p in base], active,
-                                                                        sorted(marks), later, [[fmt(p) for p in f] for f in finals][:4]), idx)
+                    states = {(tuple(tuple(p) for p in base), frozenset(marks0))}
+                    k, overflow = 0, False
+                    for h in plan_order(tree, active):
+                        r = is_head[h].rid
+                        nxt = set()
+                        if k < len(plan_cbs) and plan_cbs[k][0] == h:
+                            for pl, mk in states:
+                                pl, mk = [list(p) for p in pl], set(mk)
+                                for a in plan_cbs[k][1]:
+                                    if a[0] == 'S' and 0 < a[1] < nstates:
+                                        mk.add(a[1])
+                                    elif a[0] == 'PA' and sum(len(p) for p in pl) < taskcap:
+                                        pl[r].append((a[1], a[3], a[2], a[4]))
+                                    elif a[0] == 'PC':
+                                        pl[r] = []
+                                        mk -= set(range(h, h + is_head[h].size))
+                                nxt.add((tuple(tuple(p) for p in pl), frozenset(mk)))
+                            k += 1
+                        else:
+                            for pl, mk in states:
+                                nxt.add((pl, mk))
+                                run = runnable(list(pl[r]), active, mk)
+                                if run:
+                                    left = tuple(t for i, t in enumerate(pl[r]) if i not in set(run))
+                                    nxt.add((pl[:r] + (left,) + pl[r + 1:], mk - {pl[r][i][0] for i in run}))
+                        states = nxt
+                        if len(states) > 4096:
+                            overflow = True
+                            break
+                    if overflow or k != len(plan_cbs):
+                        # too many combinations, or plan callbacks in an order the oracle cannot place: not judged
+                        stats.inc('c06_nolog_plan_checks_skipped')
+                    else:
+                        finals = []
+                        for pl, _ in states:
+                            p = [list(x) for x in pl]
+                            for (r, t) in later:
+                                if t is None:
+                                    p[r] = []
+                                elif sum(len(q) for q in p) < taskcap:
+                                    p[r].append(t)
+                            if p not in finals:
+                                finals.append(p)
+                        if after not in finals:
+                            rej('plan-after', 'after `%s` (no logger): plans are %s; from %s with active=%x, succeeded=%s, the plan '
+                                'callbacks %s and the later edits %s they can only become one of %s' %
+                                (name, [fmt(p) for p in after], [fmt(p) for p in base], active, sorted(marks0),
+                                 plan_cbs, later, [[fmt(p) for p in f] for f in finals][:4]), idx)
             elif after != plans:
                 bad = [r for r in range(nregions) if after[r] != plans[r]]
                 rej('plan-after', 'after `%s`: plan of region(s) %s is %s; the previous plans minus the executed tasks plus the '
@@ -442,7 +520,13 @@ def judge(hdr, ops, tree, config, rejections, stats):
                     all(x == ('S', a) for _, _, acts in tick_actions for x in acts):
                 region = tree[node.parent]
                 before = parse_pl(prev.get('PL'), nregions)[region.rid]
-                has_plan = bool((px >> region.rid) & 1) if px is not None else (st.attached_exact and st.attached[region.rid])
+                # planExists when the plan pass ran (no callback of the passes appended anything in such a step): an append
+                # made later in the operation — enter / reenter / guard callbacks of the transition — does not count
+                if px_prev is not None:
+                    has_plan = bool((px_prev >> region.rid) & 1)
+                else:
+                    att, att_exact = attached_at_pass if attached_at_pass is not None else (st.attached, st.attached_exact)
+                    has_plan = att_exact and att[region.rid]
                 if has_plan:
                     post = late == {True}
                     stats.inc('checks_C06')
